@@ -606,17 +606,24 @@ def r045(ctx):
         if n.get("k") == "struct" and n["path"].endswith("analysis::Uses"):
             found = True
             for fl in n["fields"]:
-                e = peel(fl["e"])
+                e = resolve(fl["e"])
                 src = None
                 if e.get("k") == "index":
                     b = peel(e["e"])
                     if b.get("k") == "local":
                         init = simple_let_init(defs, b["id"])
                         srcs = set()
-                        if init is not None:
-                            for x in walk(init):
+
+                        def collect(x0, depth=0):
+                            for x in walk(x0):
                                 if x.get("k") == "mcall" and x["name"].startswith("get_") and x["name"].endswith("_exprs"):
                                     srcs.add(x["name"])
+                                elif x.get("k") == "local" and depth < 4:
+                                    i2 = simple_let_init(defs, x["id"])
+                                    if i2 is not None:
+                                        collect(i2, depth + 1)
+                        if init is not None:
+                            collect(init)
                         src = srcs
                 w = want.get(fl["name"])
                 ok = src is not None and len(src) > 0 and all((s_ == w) if isinstance(w, str) else (s_ in w) for s_ in src)
